@@ -183,12 +183,15 @@ class World:
                 self.types[cpath] = typ
                 schema._add_field(key, typ)
             elif kind == "schemalist":
-                sub = self._build_schema(child, cpath + ("[]",), as_item=True)
-                if child.get("configtype"):
-                    item = cc.make_type(sub, "I_" + "_".join(cpath), module=__name__)
-                    self.types[cpath] = item
+                if child.get("shared_from") and ("item",) + path + (child["shared_from"],) in self.types:
+                    item = self.types[("item",) + path + (child["shared_from"],)]  # one item type, several lists
                 else:
-                    item = sub
+                    sub = self._build_schema(child, cpath + ("[]",), as_item=True)
+                    if child.get("configtype"):
+                        item = cc.make_type(sub, "I_" + "_".join(cpath), module=__name__)
+                        self.types[cpath] = item
+                    else:
+                        item = sub
                 self.types.setdefault(("item",) + cpath, item)
                 schema._add_field(key, cc.ListField(item, required=bool(child.get("req"))))
             elif kind == "virtual":
